@@ -67,6 +67,8 @@ class Ctx:
             inl = inline.inline_helpers(f)
             if inl:
                 info = dict(info, inlined_helpers=inl)
+            from . import webs
+            info = dict(info, web_splits=webs.split_webs(f))
             self.fact_info[config] = info
             m = Model(f)
             self._models[config] = m
